@@ -549,6 +549,34 @@ pub fn object_many_symbols(rec: &mut Recorder, rng: &mut Rng, thorough: bool) {
     }
 }
 
+// objects of 4 GiB and more cannot be round-tripped here, but a decoder for them can be built and fed: one source
+// packet per block is far from enough, the answer must be 'not yet' (block sizes come from Partition[ceil(F/T), Z])
+pub fn object_huge_decoders(rec: &mut Recorder, rng: &mut Rng, thorough: bool) {
+    let mut cases: Vec<(u64, u16, u8)> = vec![((1 << 32) + 70000, 65535, 2), ((1 << 33) + 3 * 65535, 65535, 3), (1 << 32, 65535, 2), ((1 << 32) - 1, 65535, 2), (942574504275, 65535, 255)];
+    for _ in 0..(if thorough { 40 } else { 6 }) {
+        let t = 65535 - rng.below(8) as u16;
+        let z = rng.range(2, 40) as u8;
+        let f = (rng.range(1, 200) << 32) + rng.below(1 << 32);
+        if (f + t as u64 - 1) / t as u64 <= 56403 * z as u64 { cases.push((f, t, z)); }
+    }
+    for (f, t, z) in cases {
+        let esi = rng.below(20) as u32;
+        let r = guarded(move || {
+            let cfg = Oti::new(f, t, z, 1, 1);
+            let mut dec = Decoder::new(cfg);
+            let mut outs = vec![];
+            for b in 0..z { outs.push(dec.decode(EncodingPacket::new(raptorq::PayloadId::new(b, esi), vec![b; t as usize])).map(|v| v.len())); }
+            outs.push(dec.get_result().map(|v| v.len()));
+            outs
+        });
+        match r {
+            Ok(outs) => if outs.iter().any(|o| o.is_some()) { rec.impl_violation(format!("a decoder for F={f} T={t} Z={z} (blocks of about {} symbols) returns an object of {:?} bytes after ONE source packet per block", (f / t as u64) / z as u64, outs.iter().flatten().next())); },
+            Err(_) => rec.impl_violation(format!("a decoder for the valid configuration F={f} T={t} Z={z} panics when fed one source packet per block")),
+        }
+        rec.count("object_huge_decoders");
+    }
+}
+
 fn res_str(r: &Option<Vec<u8>>) -> String {
     match r {
         None => "none".into(),
@@ -607,11 +635,18 @@ pub fn decblk(rec: &mut Recorder, rng: &mut Rng, thorough: bool) {
 fn run_block_history(rec: &mut Recorder, k: u32, t: u16, nn: u16, al: u8, cfg: Oti, data: &[u8], batches: Vec<Vec<EncodingPacket>>, sparse: bool, h: usize) {
     let data = data.to_vec();
     let b2 = batches.clone();
+    // the batch is handed over as a Vec, as a filtering iterator (size_hint lower bound 0) or through from_fn
+    let shape = (k as usize + batches.len() + h) % 3;
     let r = guarded(move || {
         let mut dec = SourceBlockDecoder::new(0, &cfg, k as u64 * t as u64);
         dec.set_sparse_threshold(if sparse { 0 } else { 1 << 30 });
-        b2.into_iter().map(|b| dec.decode(b)).collect::<Vec<_>>()
+        b2.into_iter().map(|b| match shape {
+            0 => dec.decode(b),
+            1 => dec.decode(b.into_iter().filter(|p| p.data().len() < usize::MAX)),
+            _ => { let mut it = b.into_iter(); dec.decode(std::iter::from_fn(move || it.next())) }
+        }).collect::<Vec<_>>()
     });
+    rec.count(&format!("decblk_iterator_shape_{shape}"));
     let req = format!(
         "decblk {k} {t} {nn} {al} {}",
         batches.iter().map(|b| if b.is_empty() { "-".to_string() } else { b.iter().map(|p| format!("{}:{}", p.payload_id().encoding_symbol_id(), hex(p.data()))).collect::<Vec<_>>().join(",") }).collect::<Vec<_>>().join("/")
@@ -714,6 +749,8 @@ pub fn decblk_directed(rec: &mut Recorder, rng: &mut Rng, thorough: bool) {
             for e in &esis { first.push(enc.repair_packets(e - k, 1).remove(0)); }
             rng.shuffle(&mut first);
             let mut batches = vec![first];
+            // sometimes further useless (identical-row) symbols first: two, three failed attempts in a row
+            if g.len() >= 4 { for e in g[2..].iter().take(rng.below(3) as usize) { batches.push(vec![enc.repair_packets(e - k, 1).remove(0)]); rec.count("directed_repeated_failed_attempts"); } }
             for i in &idx[..lost] { batches.push(vec![src[*i].clone()]); }
             rec.count("directed_failed_attempt_then_source_symbols");
             run_block_history(rec, k, t, 1, 1, cfg, &data, batches, it % 2 == 0, 0);
@@ -808,7 +845,17 @@ pub fn decblk_malformed(rec: &mut Recorder, rng: &mut Rng, thorough: bool) {
 pub fn decobj(rec: &mut Recorder, rng: &mut Rng, thorough: bool) {
     let n = if thorough { 600 } else { 80 };
     for it in 0..n {
-        let (f, t, z, nn, al) = pick_object(rng, 900);
+        let (mut f, mut t, mut z, mut nn, mut al) = pick_object(rng, 900);
+        // directed: two block sizes on either side of a Table-2 size (KS = K' of one row, KL = KS + 1 pads to the next)
+        if it % 4 == 3 {
+            let ks = *rng.pick(&[10u64, 12, 18, 20, 26, 30, 32, 36, 42, 46, 48, 49, 55, 60, 62, 69, 75, 84, 88, 91, 95, 97, 101]);
+            z = rng.range(2, 4) as u8;
+            let kt = z as u64 * ks + rng.range(1, z as u64 - 1);
+            al = 1; nn = 1;
+            t = rng.range(1, 6) as u16;
+            f = kt * t as u64 - rng.below(t as u64);
+            rec.count("decobj_ks_is_table_row");
+        }
         let data = rng.bytes(f as usize);
         let cfg = Oti::new(f, t, z, nn, al);
         let enc = Encoder::new(&data, cfg);
@@ -1017,15 +1064,19 @@ pub fn linear(rec: &mut Recorder, rng: &mut Rng, thorough: bool) {
         let (mut a, b) = (rng.bytes(k as usize * t as usize), rng.bytes(k as usize * t as usize));
         // structured data: whole byte columns zero (shortcuts keyed on "this symbol is zero" must look at every byte)
         let tt = t as usize;
-        let mode = rng.below(6);
+        let mode = rng.below(8);
+        let lane = rng.below(8) as usize;
         let keep: Vec<bool> = match mode {
             0 | 1 => vec![true; tt],
+            // only one byte position of every 8-byte group (word-structured data: a kernel that looks at whole
+            // 64-bit lanes must not mistake it for zero)
+            6 | 7 => (0..tt).map(|j| j % 8 == lane).collect(),
             2 => { let tail = (tt % 8).max(1).min(tt); (0..tt).map(|j| j >= tt - tail).collect() }            // only the last T mod 8 columns
             3 => { let j0 = rng.below(t as u64) as usize; (0..tt).map(|j| j == j0).collect() }                  // one column
             4 => (0..tt).map(|_| rng.chance(1, 4)).collect(),                                                   // a quarter of the columns
             _ => { let head = rng.below(t as u64) as usize; (0..tt).map(|j| j < head.max(1).min(tt)).collect() } // only a prefix
         };
-        for m in 0..k as usize { for j in 0..tt { if !keep[j] { a[m * tt + j] = 0; } } }
+        for m in 0..k as usize { for j in 0..tt { if !keep[j] { a[m * tt + j] = 0; } else if mode == 7 { a[m * tt + j] = *rng.pick(&[0u8, 0x40, 0x80, 0xC0]); } } }
         rec.count(&format!("linear_data_mode_{mode}"));
         let c = rng.range(2, 255) as u8;
         let esis: Vec<u32> = vec![0, k - 1, k, k + 1, pick_repair_esi(rng, k), pick_repair_esi(rng, k), (1 << 24) - 1];
@@ -1533,7 +1584,8 @@ pub fn solver(rec: &mut Recorder, rng: &mut Rng, thorough: bool) {
         rng.shuffle(&mut idx);
         let mut src: Vec<u32> = idx[lost.min(k as usize)..].to_vec();
         src.sort();
-        let h: usize = if small { 0 } else if is_heavy { rng.below(3) as usize } else { match rng.below(8) { 0..=3 => 0, 4..=5 => 1, 6 => 2, _ => 12 } };
+        let h: usize = if small { 0 } else if is_heavy { if highdeg && it % 8 == 0 && k <= 30 { rng.range(100, 260) as usize } else { rng.below(3) as usize } } else { match rng.below(8) { 0..=3 => 0, 4..=5 => 1, 6 => 2, _ => 12 } };
+        if h >= 100 { rec.count("solver_dec_high_degree_heavy_overhead"); }
         let mut reps = std::collections::BTreeSet::new();
         if highdeg {
             let (w, j, p1) = (rq::num_lt_symbols(k), rq::systematic_index(k), rq::calculate_p1(k));
